@@ -1348,6 +1348,27 @@ func (it *interp) binop(op token.Token, x, y AV, t types.Type) AV {
 			}
 		}
 	}
+	// algebraic identities (x+0, x-0, x|0, x^0, x*1, x<<0)
+	if oky && !cy.IsNil && cy.V != nil && cy.V.Kind() == constant.Int {
+		if v, ok := constant.Int64Val(cy.V); ok {
+			switch {
+			case v == 0 && (op == token.ADD || op == token.SUB || op == token.OR || op == token.XOR || op == token.SHL || op == token.SHR):
+				return x
+			case v == 1 && (op == token.MUL || op == token.QUO):
+				return x
+			}
+		}
+	}
+	if okx && !cx.IsNil && cx.V != nil && cx.V.Kind() == constant.Int {
+		if v, ok := constant.Int64Val(cx.V); ok {
+			switch {
+			case v == 0 && (op == token.ADD || op == token.OR || op == token.XOR):
+				return y
+			case v == 1 && op == token.MUL:
+				return y
+			}
+		}
+	}
 	// comparing an address / closure / fresh allocation with nil
 	if op == token.EQL || op == token.NEQ {
 		nonnil := func(a AV) bool {
@@ -1370,6 +1391,45 @@ func (it *interp) binop(op token.Token, x, y AV, t types.Type) AV {
 				// same symbolic value
 				return cBool(op == token.EQL)
 			}
+		}
+	}
+	// (x & c) == c  with single-bit c  ≡  (x & c) != 0
+	if (op == token.EQL || op == token.NEQ) && oky && !cy.IsNil && cy.V != nil {
+		if xe, ok := x.(*Expr); ok && xe.Op == "binop" && xe.Name == "&" {
+			if m, ok := avInt(xe.Args[1]); ok {
+				if c, ok := avInt(y); ok && c == m && m > 0 && m&(m-1) == 0 {
+					nop := token.NEQ
+					if op == token.NEQ {
+						nop = token.EQL
+					}
+					return &Expr{Op: "binop", Name: tokOp[nop], Args: []AV{x, cInt(0)}, T: t}
+				}
+			}
+		}
+	}
+	// canonical form of comparisons between two symbolic values: only "==" and "<", operands of "==" ordered
+	if !okx && !oky {
+		neg := func(e AV) AV { return &Expr{Op: "unop", Name: "!", Args: []AV{e}, T: t} }
+		mk := func(o string, a, b AV) AV { return &Expr{Op: "binop", Name: o, Args: []AV{a, b}, T: t} }
+		switch op {
+		case token.EQL, token.NEQ:
+			a, b := x, y
+			if a.Key() > b.Key() {
+				a, b = b, a
+			}
+			e := mk("==", a, b)
+			if op == token.NEQ {
+				return neg(e)
+			}
+			return e
+		case token.LSS:
+			return mk("<", x, y)
+		case token.GTR:
+			return mk("<", y, x)
+		case token.GEQ:
+			return neg(mk("<", x, y))
+		case token.LEQ:
+			return neg(mk("<", y, x))
 		}
 	}
 	return &Expr{Op: "binop", Name: tokOp[op], Args: []AV{x, y}, T: t}
